@@ -82,6 +82,15 @@ SIG = {
                       [('hashlib_sha256', 'Bytes → Bytes'), ('OPS', 'List (String × Bytes)'), ('self_version', 'Bytes'),
                        ('self_inputs', 'List Py.PyTxIn'), ('self_outputs', 'List Py.PyTxOut'), ('self_locktime', 'Bytes'),
                        ('txin_index', 'Int'), ('script', 'List Py.PyTok'), ('amount', 'Int'), ('sighash', 'Int')], 'Bytes'),
+    # parsing: cursor arithmetic over the whole buffer (hex strings that denote data are modelled as the bytes they denote)
+    'txoutput_from_raw': ('transactions.py', 'TxOutput.from_raw',
+                          [('CODEOPS', 'List (Bytes × String)'), ('txoutputrawhex', 'Bytes'), ('cursor', 'Int'), ('has_segwit', 'Bool')],
+                          'Py.PyTxOut × Int'),
+    'txinput_from_raw': ('transactions.py', 'TxInput.from_raw',
+                         [('CODEOPS', 'List (Bytes × String)'), ('txinputrawhex', 'Bytes'), ('cursor', 'Int'), ('has_segwit', 'Bool')],
+                         'Py.PyTxIn × Int'),
+    'transaction_from_raw': ('transactions.py', 'Transaction.from_raw',
+                             [('CODEOPS', 'List (Bytes × String)'), ('rawtxhex', 'Bytes')], 'Py.PyTx'),
     # the original SignatureHash: works on a deep copy of self that it mutates
     'legacy_digest': ('transactions.py', 'Transaction.get_transaction_digest',
                       [('hashlib_sha256', 'Bytes → Bytes'), ('OPS', 'List (String × Bytes)'), ('self_version', 'Bytes'),
@@ -131,12 +140,21 @@ TOK_FIELDS = {'script_pubkey', 'script_sig'}
 RECORDS = {'List Py.PyTxIn': ('txinput_to_bytes', True, ['txid', 'txout_index', 'script_sig', 'sequence']),
            'List Py.PyTxOut': ('txoutput_to_bytes', True, ['amount', 'script_pubkey']),
            'List Py.PyWit': ('txwitness_to_bytes', False, ['stack'])}
+# parsers: `x.hex()` of bytes is the same data (hex strings are modelled as the bytes they denote), struct.unpack_from
+PARSERS = {'txoutput_from_raw', 'txinput_from_raw', 'transaction_from_raw'}
+# struct format characters: size in bytes (little-endian / no alignment only), unsigned
+FMT_INT = {'B': 1, 'H': 2, 'I': 4, 'Q': 8}
 # functions allowed to mutate `tmp = Transaction.copy(self)`: the copy's record lists become mutable *values* (lists of records).
 # Sound because the copy is deep — every record of the copy is a fresh object distinct from every other (C13's heap theorems and
 # history runs are about exactly that) — and because the function hands none of those objects out.
 MUTCOPY = {'legacy_digest'}
 # constructor argument order of the record classes (checked against the class's __init__ when used)
-REC_CTOR = {'TxOutput': ('Py.PyTxOut', ['amount', 'script_pubkey']), 'TxInput': ('Py.PyTxIn', ['txid', 'txout_index', 'script_sig', 'sequence'])}
+REC_CTOR = {'TxOutput': ('Py.PyTxOut', ['amount', 'script_pubkey']), 'TxInput': ('Py.PyTxIn', ['txid', 'txout_index', 'script_sig', 'sequence']),
+            'TxWitnessInput': ('Py.PyWit', ['stack']),
+            'Transaction': ('Py.PyTx', ['inputs', 'outputs', 'locktime', 'version', 'has_segwit', 'witnesses'])}
+# element types of the lists a function builds with `x = []` ... `x.append(e)` (each append is checked against it)
+LOCAL_LISTS = {'transaction_from_raw': {'inputs': 'List Py.PyTxIn', 'outputs': 'List Py.PyTxOut', 'witnesses': 'List Py.PyWit',
+                                        'witnesses_tmp': 'List Bytes'}}
 # module-level names visible to the functions of one file only (filled from the evaluated module)
 FILE_CONSTS = {}
 # `while` loops are translated with an explicit iteration bound (a Lean term over the variables in scope at loop
@@ -292,7 +310,7 @@ class Tr:
     def __init__(s, name, file=None):
         s.name = name; s.tmp = 0; s.pre = []; s.declared = set(); s.points = set(); s.tuple5 = set()
         s.toklists = set(); s.tokvars = set(); s.optables = set(); s.byteslists = set(); s.reclists = {}; s.recvars = {}; s.revtables = set()
-        s.hoisted = set(); s.selfcopies = set(); s.scriptlists = set()
+        s.hoisted = set(); s.selfcopies = set(); s.scriptlists = set(); s.fmtvars = {}; s.fmtpre = {}; s.hoisting = False
         s.fconsts = FILE_CONSTS.get(file, {})
 
     def fail(s, n, why):
@@ -311,6 +329,7 @@ class Tr:
             s.fail(n, 'constant')
         if isinstance(n, ast.Name) and n.id in s.tokvars: return f'(Py.tokInt {n.id})'      # a token used as a number (under isinstance(token, int))
         if isinstance(n, ast.Name) and n.id == 'OP_CODES' and 'OPS' in s.optables: return 'OPS'
+        if isinstance(n, ast.Name) and n.id in s.fmtvars: s.fail(n, 'a struct format used as a value')
         if isinstance(n, ast.Name):
             if n.id in s.fconsts and n.id not in s.declared: return s.fconsts[n.id]
             if n.id in CONSTS and n.id not in s.declared: return CONSTS[n.id]
@@ -378,6 +397,19 @@ class Tr:
         if (isinstance(n, ast.Compare) and len(n.ops) == 1 and isinstance(n.ops[0], ast.In) and isinstance(n.comparators[0], ast.Name)
                 and n.comparators[0].id == 'CODE_OPS' and 'CODEOPS' in s.revtables):
             return f'(Py.inTableB CODEOPS {s.e(n.left)})'
+        if (isinstance(n, ast.Compare) and len(n.ops) == 1 and isinstance(n.ops[0], (ast.Eq, ast.NotEq)) and s.name in PARSERS
+                and isinstance(n.left, ast.Call) and isinstance(n.left.func, ast.Attribute) and n.left.func.attr == 'hex'
+                and not n.left.args and s.isbytes(n.left.func.value)):
+            # <bytes>.hex() == <lower-case hex literal, possibly repeated>: hex() is injective, so this compares the data
+            r = n.comparators[0]; lit = None
+            if isinstance(r, ast.Constant) and isinstance(r.value, str): lit = r.value
+            if (isinstance(r, ast.BinOp) and isinstance(r.op, ast.Mult) and isinstance(r.left, ast.Constant) and isinstance(r.left.value, str)
+                    and isinstance(r.right, ast.Constant) and isinstance(r.right.value, int) and not isinstance(r.right.value, bool)):
+                lit = r.left.value * r.right.value
+            import re as _re
+            if lit is None or not _re.fullmatch(r'([0-9a-f]{2})*', lit): s.fail(n, 'comparison of hex() with a non-literal')
+            op = '==' if isinstance(n.ops[0], ast.Eq) else '!='
+            return f'({s.e(n.left.func.value)} {op} ({blit(bytes.fromhex(lit))} : Bytes))'
         if isinstance(n, ast.Compare) and len(n.ops) == 1:
             a, b = s.e(n.left), s.e(n.comparators[0])
             if isinstance(n.ops[0], ast.Lt) and s.isbytes(n.left) and s.isbytes(n.comparators[0]):
@@ -426,6 +458,10 @@ class Tr:
                     and isinstance(k.right, ast.Call) and getattr(k.right.func, 'id', '') == 'str' and len(k.right.args) == 1):
                 return s.eff(f'Py.lookupS OPS ({lean_str(k.left.value)} ++ Py.strInt {s.e(k.right.args[0])})')
             s.fail(n, 'OP_CODES key')
+        if isinstance(n, ast.Subscript) and s.is_unpack_from(n.value) and isinstance(n.slice, ast.Constant) and isinstance(n.slice.value, int):
+            parts, _ = s.unpack_from(n.value)
+            if not 0 <= n.slice.value < len(parts): s.fail(n, 'unpack_from index')
+            return parts[n.slice.value]
         if isinstance(n, ast.Subscript):
             v = s.e(n.value)
             if isinstance(n.slice, ast.Slice):
@@ -460,8 +496,75 @@ class Tr:
             return n.id
         s.fail(n, 'iterable')
 
+    def fmt_items(s, n, fmt):
+        """'<32sI' -> [('s', 32), ('I', 4)]; the format must be little-endian, or consist of `s` items only (no alignment either way)"""
+        import re as _re
+        body = fmt[1:] if fmt[:1] == '<' else fmt
+        items = _re.findall(r'(\d*)([a-zA-Z?])', body)
+        if ''.join(c + k for c, k in items) != body: s.fail(n, f'struct format {fmt!r}')
+        out = []
+        for c, k in items:
+            if k == 's': out.append(('s', int(c) if c else 1))
+            elif k in FMT_INT and not c: out.append((k, FMT_INT[k]))
+            else: s.fail(n, f'struct format item {c}{k}')
+        if fmt[:1] != '<' and any(k != 's' for k, _ in out): s.fail(n, f'native-mode struct format {fmt!r}')
+        return out
+
+    def fmt_of(s, n):
+        """the format argument of a struct call: a literal, a variable bound once to a literal, or f'{n}s'"""
+        if isinstance(n, ast.Name) and n.id in s.fmtvars: n = s.fmtvars[n.id]
+        elif isinstance(n, ast.Name) and n.id in s.fmtpre and s.hoisting: n = s.fmtpre[n.id]
+        if isinstance(n, ast.Constant) and isinstance(n.value, str): return ('const', n.value)
+        if (isinstance(n, ast.JoinedStr) and len(n.values) == 2 and isinstance(n.values[0], ast.FormattedValue)
+                and n.values[0].conversion == -1 and n.values[0].format_spec is None
+                and isinstance(n.values[1], ast.Constant) and n.values[1].value == 's'):
+            return ('dyn_s', n.values[0].value)
+        return None
+
+    def unpack_from(s, n):
+        """struct.unpack_from(fmt, buf, offset) -> (lean tuple expression, kinds)"""
+        a = n.args
+        if len(a) != 3 or n.keywords: s.fail(n, 'unpack_from arguments')
+        f = s.fmt_of(a[0])
+        if f is None: s.fail(n, 'unpack_from format')
+        buf, off = s.e(a[1]), s.e(a[2])
+        if f[0] == 'dyn_s':
+            return [s.eff(f'Py.unpackFromS {s.e(f[1])} {buf} {off}')], ['bytes']
+        items = s.fmt_items(n, f[1])
+        total = sum(z for _, z in items)
+        t = s.eff(f'Py.bufAt {buf} {off} {total}')
+        parts, kinds, pos = [], [], 0
+        for k, z in items:
+            sl = f'(List.take {z} (List.drop {pos} {t}))'
+            if k == 's': parts.append(sl); kinds.append('bytes')
+            else: parts.append(f'((Py.ofLE {sl} : Nat) : Int)'); kinds.append('int')
+            pos += z
+        return parts, kinds
+
+    def is_unpack_from(s, n):
+        return (isinstance(n, ast.Call) and isinstance(n.func, ast.Attribute) and n.func.attr == 'unpack_from'
+                and isinstance(n.func.value, ast.Name) and n.func.value.id == 'struct')
+
+    def tuple_kinds(s, v, k):
+        """kinds of the components of a tuple-valued right-hand side (for the declaration of tuple targets)"""
+        if s.is_unpack_from(v):
+            f = s.fmt_of(v.args[0])
+            if f is None: return None
+            if f[0] == 'dyn_s': return ['bytes']
+            return ['bytes' if kk == 's' else 'int' for kk, _ in s.fmt_items(v, f[1])]
+        if (isinstance(v, ast.Call) and isinstance(v.func, ast.Attribute) and v.func.attr == 'from_raw'
+                and isinstance(v.func.value, ast.Name) and v.func.value.id in ('TxInput', 'TxOutput')):
+            return ['rec:' + REC_CTOR[v.func.value.id][0], 'int']
+        return None
+
     def check_ctor(s, n, cls):
         """positional arguments of a record constructor are in the order of the record's fields"""
+        if cls in COPY_FILES:
+            params, stored = ctor_map(cls)          # raises Unsupported unless __init__ only stores its parameters
+            want = REC_CTOR[cls][1]
+            if params[:len(want)] != want: s.fail(n, f'{cls}.__init__ parameters {params} are not {want}')
+            if any(stored.get(p_) != p_ for p_ in want): s.fail(n, f'{cls}.__init__ does not store {want} as given')
+            return
         for c in s.tree.body:
             if isinstance(c, ast.ClassDef) and c.name == cls:
                 for m in c.body:
@@ -514,6 +617,7 @@ class Tr:
             if nm in LIST_RET: return 'ints'
             return 'bytes' if s.isbytes(n) else None
         if isinstance(n, ast.Subscript) and isinstance(n.slice, ast.Slice): return s.kind(n.value)
+        if isinstance(n, ast.Subscript) and s.is_unpack_from(n.value): return 'bytes' if s.isbytes(n) else None
         return None
 
     def isbytes(s, n):
@@ -529,8 +633,12 @@ class Tr:
         if isinstance(n, ast.Call):
             f = n.func
             nm = f.attr if isinstance(f, ast.Attribute) else getattr(f, 'id', '')
+            if nm == 'hex' and s.name in PARSERS and isinstance(f, ast.Attribute): return s.isbytes(f.value)
             return nm in ('to_bytes', 'pack', 'bytes', 'encode_varint', 'h_to_b', 'b_to_h', '_op_push_data',
                           'prepend_compact_size', 'digest', 'encode', 'ripemd160') or nm in LIST_RET or nm in SCH_BYTES
+        if isinstance(n, ast.Subscript) and s.is_unpack_from(n.value) and isinstance(n.slice, ast.Constant):
+            k = s.tuple_kinds(n.value, 0)
+            return bool(k) and isinstance(n.slice.value, int) and 0 <= n.slice.value < len(k) and k[n.slice.value] == 'bytes'
         if isinstance(n, ast.Subscript): return isinstance(n.slice, ast.Slice) and s.isbytes(n.value)
         return False
 
@@ -571,6 +679,13 @@ class Tr:
             if f.id in POINT_RET and 'p' in s.fconsts: return s.eff(f'{POINT_RET[f.id]} ' + ' '.join(s.e(a) for a in args))
             if f.id == 'Script' and len(args) == 1 and not kw and isinstance(args[0], ast.List) and not args[0].elts:
                 return '([] : List Py.PyTok)'
+            if (f.id == 'Script' and s.name in PARSERS and len(args) == 1 and not kw and isinstance(args[0], ast.List)
+                    and all(isinstance(x, ast.Call) and isinstance(x.func, ast.Attribute) and x.func.attr == 'hex' and not x.args
+                            and s.isbytes(x.func.value) for x in args[0].elts)):
+                return '[' + ', '.join(f'Py.PyTok.data {s.e(x.func.value)}' for x in args[0].elts) + ']'       # Script([data.hex()])
+            if f.id in REC_CTOR and s.name in PARSERS and not args and set(kw) == set(REC_CTOR[f.id][1]):
+                s.check_ctor(n, f.id)
+                return '(⟨' + ', '.join(s.e(kw[x]) for x in REC_CTOR[f.id][1]) + f'⟩ : {REC_CTOR[f.id][0]})'
             if f.id in REC_CTOR and s.mutcopy is not None and not kw and len(args) == len(REC_CTOR[f.id][1]):
                 s.check_ctor(n, f.id)
                 return f'(⟨' + ', '.join(s.e(a) for a in args) + f'⟩ : {REC_CTOR[f.id][0]})'
@@ -598,6 +713,21 @@ class Tr:
                     and isinstance(args[1], ast.Name) and args[1].id == 'int':
                 return f'(Py.tokIsInt {args[0].id})'
             if f.id == 'isinstance': return 'true'     # argument types are fixed by the signature table
+        if isinstance(f, ast.Attribute) and s.name in PARSERS:
+            if f.attr == 'hex' and not args and not kw and s.isbytes(f.value):
+                return s.e(f.value)           # bytes.hex(): the hex string that denotes the same data
+            if (f.attr == 'from_raw' and isinstance(f.value, ast.Name) and f.value.id == 'Script' and len(args) == 1
+                    and set(kw) <= {'has_segwit'} and 'CODEOPS' in s.revtables):
+                seg = s.cond(kw['has_segwit']) if 'has_segwit' in kw else 'false'
+                return s.eff(f'script_from_raw CODEOPS {s.e(args[0])} {seg}')
+            if (f.attr == 'from_raw' and isinstance(f.value, ast.Name) and f.value.id in ('TxInput', 'TxOutput') and len(args) == 3
+                    and not kw and 'CODEOPS' in s.revtables):
+                fn_ = 'txinput_from_raw' if f.value.id == 'TxInput' else 'txoutput_from_raw'
+                return s.eff(f'{fn_} CODEOPS {s.e(args[0])} {s.e(args[1])} {s.cond(args[2])}')
+            if f.attr == 'calcsize' and isinstance(f.value, ast.Name) and f.value.id == 'struct' and len(args) == 1:
+                fm = s.fmt_of(args[0])
+                if fm is None or fm[0] != 'const': s.fail(n, 'calcsize format')
+                return f'({sum(z for _, z in s.fmt_items(n, fm[1]))} : Int)'
         if isinstance(f, ast.Attribute):
             if (f.attr == 'digest' and not args and isinstance(f.value, ast.Call) and isinstance(f.value.func, ast.Attribute)
                     and f.value.func.attr == 'sha256' and isinstance(f.value.func.value, ast.Name) and f.value.func.value.id == 'hashlib'
@@ -713,6 +843,27 @@ class Tr:
         if isinstance(st, ast.Raise): return [f'{ind}throw PyErr.{s.exc(st.exc)}']
         if isinstance(st, ast.Assert):
             c = s.cond(st.test); return s.flush(ind) + [f'{ind}if !{c} then throw PyErr.assertion']
+        LL = LOCAL_LISTS.get(s.name, {})
+        if (isinstance(st, ast.Assign) and len(st.targets) == 1 and isinstance(st.targets[0], ast.Name) and st.targets[0].id in LL):
+            nm = st.targets[0].id
+            if not (isinstance(st.value, ast.List) and not st.value.elts): s.fail(st, 'a typed local list is only ever reset to []')
+            kw_ = '' if nm in s.declared else 'let mut '
+            s.declared.add(nm)
+            if LL[nm] in RECORDS: s.reclists[nm] = RECORDS[LL[nm]]
+            if LL[nm] == 'List Bytes': s.byteslists.add(nm)
+            return [f'{ind}{kw_}{nm} : {LL[nm]} := []'] if kw_ else [f'{ind}{nm} := ([] : {LL[nm]})']
+        if (isinstance(st, ast.Expr) and isinstance(st.value, ast.Call) and isinstance(st.value.func, ast.Attribute)
+                and st.value.func.attr == 'append' and isinstance(st.value.func.value, ast.Name)
+                and st.value.func.value.id in LL and len(st.value.args) == 1 and not st.value.keywords):
+            nm = st.value.func.value.id; a = st.value.args[0]; T_ = LL[nm]
+            if T_ == 'List Bytes':
+                if not s.isbytes(a): s.fail(st, 'append of a non-bytes value to a list of bytes')
+                v = s.e(a)
+            elif isinstance(a, ast.Name) and a.id in s.recvars and s.recvars[a.id] == RECORDS[T_]: v = a.id
+            elif (isinstance(a, ast.Call) and isinstance(a.func, ast.Name) and a.func.id in REC_CTOR
+                  and 'List ' + REC_CTOR[a.func.id][0] == T_): v = s.e(a)
+            else: s.fail(st, 'append to a typed local list')
+            return s.flush(ind) + [f'{ind}{nm} := {nm} ++ [{v}]']
         if isinstance(st, ast.Assign) and len(st.targets) == 1 and s.mutlists:
             tg = st.targets[0]
             # L[i].field = e   on a list of the mutable copy
@@ -768,11 +919,30 @@ class Tr:
                     s.selfalias.add(tg.attr)
                     return []
                 s.fail(st, 'attribute assignment')
+            if isinstance(tg, ast.Tuple) and all(isinstance(x, ast.Name) for x in tg.elts) and s.is_unpack_from(st.value):
+                parts, kinds = s.unpack_from(st.value)
+                if len(parts) != len(tg.elts): s.fail(st, 'unpack_from: number of targets')
+                out = s.flush(ind)
+                for x, pt in zip(tg.elts, parts): out.append(f'{ind}{x.id} := {pt}')
+                return out
             if isinstance(tg, ast.Tuple) and all(isinstance(x, ast.Name) for x in tg.elts):
                 # all targets were declared up front by hoist()
                 v = s.e(st.value)
                 return s.flush(ind) + [f'{ind}({", ".join(x.id for x in tg.elts)}) := {v}']
             if not isinstance(tg, ast.Name): s.fail(st, 'assignment target')
+            if s.name in PARSERS and s.fmt_of(st.value) is not None and not isinstance(st.value, ast.Name):
+                # a struct format bound to a name: used only as a format (checked: every other use of the name is rejected by e())
+                if tg.id in s.fmtvars or tg.id in s.declared: s.fail(st, 'format variable re-bound')
+                if s.fmt_of(st.value)[0] == 'dyn_s':
+                    # f'{n}s' is evaluated here: freeze n
+                    s.tmp += 1; fz = f'fmt{s.tmp}'
+                    pre = [f'{ind}let {fz} : Int := {s.e(s.fmt_of(st.value)[1])}']
+                    s.declared.add(fz)
+                    s.fmtvars[tg.id] = ast.JoinedStr(values=[ast.FormattedValue(value=ast.Name(id=fz, ctx=ast.Load()), conversion=-1, format_spec=None),
+                                                             ast.Constant(value='s')])
+                    return s.flush(ind) + pre
+                s.fmtvars[tg.id] = st.value
+                return []
             if s.ret == 'List Py.PyTok' and isinstance(st.value, ast.List) and not st.value.elts:
                 s.toklists.add(tg.id)
                 kw = '' if tg.id in s.declared else 'let mut '
@@ -820,7 +990,7 @@ class Tr:
             if isinstance(r, ast.Call) and isinstance(r.func, ast.Name) and r.func.id == 'range' and len(r.args) == 1:
                 # a lazy counting loop (the bound may be an attacker-chosen 64-bit count: never materialised)
                 hi = s.e(r.args[0]); pre = s.flush(ind)
-                used = any(isinstance(x, ast.Name) and x.id == v for b in st.body for x in ast.walk(b))
+                used = any(isinstance(x, ast.Name) and x.id == v and isinstance(x.ctx, ast.Load) for b in st.body for x in ast.walk(b))
                 head = [f'{ind}for {v}_ in [0:(Int.toNat {hi})] do']
                 if used: head.append(f'{ind}  let {v} : Int := Int.ofNat {v}_')
                 return pre + head + s.block(st.body, ind + '  ')
@@ -862,12 +1032,23 @@ class Tr:
                 'RuntimeError': 'runtimeError'}.get(nm, 'other')
 
     def hoist(s, node, params):
+        s.hoisting = True
+        try: return s.hoist_(node, params)
+        finally: s.hoisting = False
+
+    def hoist_(s, node, params):
         """variables whose first assignment is inside a branch are declared up front"""
         top = set(p for p, _ in params)
         for st in node.body:
             if isinstance(st, ast.Assign) and len(st.targets) == 1 and isinstance(st.targets[0], ast.Name):
                 top.add(st.targets[0].id)
         out = []
+        if s.name in PARSERS:
+            # kinds of the names bound at top level, in order (a later hoisted declaration may be a slice of one of them)
+            for st in node.body:
+                if (isinstance(st, ast.Assign) and len(st.targets) == 1 and isinstance(st.targets[0], ast.Name)
+                        and st.targets[0].id not in s.fmtpre and s.kind(st.value) == 'bytes'):
+                    s.bytesvars.add(st.targets[0].id)
         for st in ast.walk(node):
             if isinstance(st, ast.Assign) and len(st.targets) == 1 and isinstance(st.targets[0], ast.Name):
                 nm = st.targets[0].id
@@ -875,6 +1056,20 @@ class Tr:
                 if nm not in top and nm not in s.declared and rl is not None:
                     out.append(f'  let mut {nm} : {REC_TYPE[s.reclists[rl][0]]} := default')
                     s.declared.add(nm); s.recvars[nm] = s.reclists[rl]; s.hoisted.add(nm)
+                    continue
+                if nm not in top and nm not in s.declared and nm in LOCAL_LISTS.get(s.name, {}):
+                    T_ = LOCAL_LISTS[s.name][nm]
+                    out.append(f'  let mut {nm} : {T_} := []')
+                    s.declared.add(nm)
+                    if T_ in RECORDS: s.reclists[nm] = RECORDS[T_]
+                    if T_ == 'List Bytes': s.byteslists.add(nm)
+                    continue
+                if (nm not in top and nm not in s.declared and s.name in PARSERS and isinstance(st.value, ast.Call)
+                        and (getattr(st.value.func, 'id', '') == 'Script'
+                             or (isinstance(st.value.func, ast.Attribute) and st.value.func.attr == 'from_raw'
+                                 and getattr(st.value.func.value, 'id', '') == 'Script'))):
+                    out.append(f'  let mut {nm} := ([] : List Py.PyTok)')
+                    s.declared.add(nm); s.toklists.add(nm)
                     continue
                 if nm not in top and nm not in s.declared:
                     k = s.kind(st.value)
@@ -885,11 +1080,21 @@ class Tr:
                     if k == 'bytes': s.bytesvars.add(nm)
                     if k == 'ints': s.intlists.add(nm)
             if isinstance(st, ast.Assign) and len(st.targets) == 1 and isinstance(st.targets[0], ast.Tuple):
-                for x in st.targets[0].elts:
+                kinds = s.tuple_kinds(st.value, len(st.targets[0].elts)) if s.name in PARSERS else None
+                for j, x in enumerate(st.targets[0].elts):
                     if isinstance(x, ast.Name) and x.id not in s.declared:
-                        # tuple targets: integers (the callees in the whitelist return tuples of ints)
-                        out.append(f'  let mut {x.id} := (0 : Int)')
+                        # tuple targets: integers (the callees in the whitelist return tuples of ints) unless the callee says otherwise
+                        kd = kinds[j] if kinds and j < len(kinds) else 'int'
+                        if kd == 'bytes':
+                            out.append(f'  let mut {x.id} := ([] : Bytes)'); s.bytesvars.add(x.id)
+                        elif kd.startswith('rec:'):
+                            out.append(f'  let mut {x.id} : {kd[4:]} := default')
+                            s.recvars[x.id] = RECORDS['List ' + kd[4:]]
+                        else:
+                            out.append(f'  let mut {x.id} := (0 : Int)')
                         s.declared.add(x.id)
+                    elif isinstance(x, ast.Name) and kinds and j < len(kinds) and kinds[j] == 'bytes' and x.id not in s.bytesvars:
+                        s.fail(st, f'tuple target {x.id} changes kind')
         return out
 
     def fn(s, node, params, ret):
@@ -973,6 +1178,12 @@ class Tr:
                 def visit_Name(self, n):
                     return ast.copy_location(ast.Name(id='self', ctx=n.ctx), n) if n.id in copies else n
             node = RC().visit(node)
+        if s.name in PARSERS:
+            # format strings bound to names (needed before the declarations are hoisted)
+            for st in ast.walk(node):
+                if (isinstance(st, ast.Assign) and len(st.targets) == 1 and isinstance(st.targets[0], ast.Name)
+                        and not isinstance(st.value, ast.Name) and s.fmt_of(st.value) is not None):
+                    s.fmtpre[st.targets[0].id] = st.value
         pre = s.hoist(node, params)
         if node.name == '__init__':
             # self.x reads refer to parameter x (after the `self.x = x` copies)
